@@ -154,6 +154,57 @@ async fn drain<E: std::fmt::Display>(
     Ok((n, err))
 }
 
+/// Ranges above 1 MiB (and above tokio's 2 MiB file buffer) through the local reader: read_at and read_chunks must still
+/// return exactly the requested bytes - no more, no fewer - whether or not the range ends at the end of the file.
+#[derive(Clone, Debug, Serialize, Deserialize)]
+pub struct BigLocalCase {
+    pub total: u32,
+    pub seed: u32,
+    pub off: u32,
+    pub len: u32,
+    pub reads: ReadScript,
+    /// the range ends exactly at the end of the file
+    pub to_eof: bool,
+}
+
+fn run_biglocal(c: &BigLocalCase, rec: &mut CaseRec) -> Result<(), String> {
+    let mut data = Vec::new();
+    SplitMix(c.seed as u64 ^ 0xB16).fill(&mut data, c.total as usize);
+    let data = Arc::new(data);
+    let len = (c.len as usize).min(data.len());
+    let off = if c.to_eof { data.len() - len } else { (c.off as usize) % (data.len() - len + 1) };
+    let mut reader = IoReader::new(FragReader::new(data.clone(), c.reads.clone()));
+    let b = crate::util::block_on_simple(reader.read_at(off as u64, len)).map_err(|e| format!("local read_at({},{}) failed although the bytes are available: {}", off, len, e))?;
+    if b.len() != len || b[..] != data[off..off + len] {
+        return Err(format!("local read_at({},{}) of a {}-byte file returned {} bytes{}", off, len, data.len(), b.len(), if b.len() == len { " (wrong bytes)" } else { "" }));
+    }
+    // the same range as a chunk, followed by a small adjacent one and one in front
+    let mut ranges: Vec<(u64, usize)> = vec![(off as u64, len)];
+    if off + len + 10 <= data.len() {
+        ranges.push(((off + len) as u64, 10));
+    }
+    if off >= 7 {
+        ranges.push((off as u64 - 7, 7));
+    }
+    let chunks: Vec<ChunkOffset> = ranges.iter().map(|(o, l)| ChunkOffset::new(*o, *l)).collect();
+    let mut reader = IoReader::new(FragReader::new(data.clone(), c.reads.clone()));
+    let (n, err) = crate::util::block_on_simple(async { drain(reader.read_chunks(chunks), &data, &ranges).await })?;
+    if n != ranges.len() || err.is_some() {
+        return Err(format!("local: {} of {} ranges delivered, error {:?}, although all ranges are readable", n, ranges.len(), err));
+    }
+    rec.level = Some("L1");
+    rec.nontrivial = true;
+    rec.class("local_range_over_1MiB");
+    rec.class_if(len > 2 << 20, "local_range_over_2MiB");
+    rec.class_if(off + len == data.len(), "range_ends_at_end_of_file");
+    Ok(())
+}
+
+fn biglocal_strategy() -> impl Strategy<Value = BigLocalCase> {
+    (2_300_000u32..4_200_000, any::<u32>(), any::<u32>(), prop_oneof![Just(1_048_577u32), 1_048_577u32..2_300_000, Just(2_097_153u32)], prop_oneof![2 => Just(ReadScript::full()), 1 => Just(ReadScript { sizes: vec![65536], pending_every: 0 }), 1 => Just(ReadScript { sizes: vec![1 << 20, 4096, 0], pending_every: 3 })], prop::bool::weighted(0.2))
+        .prop_map(|(total, seed, off, len, reads, to_eof)| BigLocalCase { total, seed, off, len, reads, to_eof })
+}
+
 fn run_local(c: &LocalCase, rec: &mut CaseRec) -> Result<(), String> {
     let data = Arc::new(blob(c.data_len as usize, c.seed));
     let ranges = place_ranges(&c.ranges, data.len());
@@ -718,7 +769,7 @@ impl Prop for C08 {
     fn meta(&self, _tier: Tier) -> Meta {
         Meta {
             level: "fault_enumeration",
-            rule: "local: data blob x range lists (placed, adjacent, overlapping, unordered; sizes >= 1) x read scripts (short reads of 1,2,3,7,random sizes, Pending at scripted polls) x early EOF, through IoReader::read_chunks / read_at on a fresh reader. session: ONE local reader, possibly consumed up to an arbitrary position before it was wrapped, used for 1-5 operations in a row (read_at, read_chunks read to the end, read_chunks dropped after k items), range lists starting at offset 0 with weight 1/7. hsession: ONE HttpReader for 2-4 operations in a row against one scripted server whose fault steps span the whole session (also an operation after a failed one). http: the same range lists through HttpReader::read_chunks / read_at against the scripted server with a per-request fault step (ok | accept-and-drop | cut after k body bytes (FIN; under chunked encoding a cut at or behind the end of the body means: all data chunks, no terminating chunk) | clean early end after k bytes), retry budget 0..3, delay 0, body flushed in pieces or chunked transfer encoding. 'cuts': for bodies of <= 40 bytes EVERY cut offset 0..len of the first request x second-request step in {ok, cut 0, cut 1, drop} x budget 0..3 x {one run, a second run behind a gap} x {Content-Length, chunked encoding}. Oracle: items == requested slices in order; the Range log equals the resume model exactly (request i+1 starts at offset + bytes received, at most 1+budget requests per run of adjacent ranges); budget exhaustion or an early clean end gives Err after a correct prefix and then the end of the stream; read_at returns exactly size bytes or Err and re-requests the whole range. Non-trivial = a mid-body cut followed by a resume, budget exhaustion, clean early end, or a short read inside a chunk / early EOF; distinct by Blake2 of the canonical case.".into(),
+            rule: "local: data blob x range lists (placed, adjacent, overlapping, unordered; sizes >= 1) x read scripts (short reads of 1,2,3,7,random sizes, Pending at scripted polls) x early EOF, through IoReader::read_chunks / read_at on a fresh reader. biglocal: read_at and read_chunks of ranges of 1 MiB + 1 .. 2.3 MB out of files of 2.3-4.2 MB. session: ONE local reader, possibly consumed up to an arbitrary position before it was wrapped, used for 1-5 operations in a row (read_at, read_chunks read to the end, read_chunks dropped after k items), range lists starting at offset 0 with weight 1/7. hsession: ONE HttpReader for 2-4 operations in a row against one scripted server whose fault steps span the whole session (also an operation after a failed one). http: the same range lists through HttpReader::read_chunks / read_at against the scripted server with a per-request fault step (ok | accept-and-drop | cut after k body bytes (FIN; under chunked encoding a cut at or behind the end of the body means: all data chunks, no terminating chunk) | clean early end after k bytes), retry budget 0..3, delay 0, body flushed in pieces or chunked transfer encoding. 'cuts': for bodies of <= 40 bytes EVERY cut offset 0..len of the first request x second-request step in {ok, cut 0, cut 1, drop} x budget 0..3 x {one run, a second run behind a gap} x {Content-Length, chunked encoding}. Oracle: items == requested slices in order; the Range log equals the resume model exactly (request i+1 starts at offset + bytes received, at most 1+budget requests per run of adjacent ranges); budget exhaustion or an early clean end gives Err after a correct prefix and then the end of the stream; read_at returns exactly size bytes or Err and re-requests the whole range. Non-trivial = a mid-body cut followed by a resume, budget exhaustion, clean early end, or a short read inside a chunk / early EOF; distinct by Blake2 of the canonical case.".into(),
             assumptions: vec!["the server returns correct bytes whenever it answers (wrong data is C04's domain); zero-length ranges are outside the domain (no caller produces them)".into(), "true 'connection refused' is replaced by accept-and-drop".into()],
             ..Meta::default()
         }
@@ -727,6 +778,7 @@ impl Prop for C08 {
         let t = cx.tier;
         cx.run_prop("local", t.pick(60_000, 1_000_000), local_strategy(), run_local);
         cx.run_prop("session", t.pick(60_000, 1_000_000), session_strategy(), run_session);
+        cx.run_prop("biglocal", t.pick(96, 2000), biglocal_strategy(), run_biglocal);
         // exhaustive cut offsets
         if std::env::var("VERIF_ONLY").map(|o| o.split(',').any(|v| v == "cuts")).unwrap_or(true) {
             let lens: Vec<u16> = t.pick(vec![1, 2, 7, 24], vec![1, 2, 3, 7, 16, 24, 40]);
@@ -801,6 +853,7 @@ impl Prop for C08 {
             "hsession" => run_hsession(&serde_json::from_value(case.clone()).map_err(|e| e.to_string())?, &mut rec),
             "session" => run_session(&serde_json::from_value(case.clone()).map_err(|e| e.to_string())?, &mut rec),
             "local" => run_local(&serde_json::from_value(case.clone()).map_err(|e| e.to_string())?, &mut rec),
+            "biglocal" => run_biglocal(&serde_json::from_value(case.clone()).map_err(|e| e.to_string())?, &mut rec),
             _ => run_http(&serde_json::from_value(case.clone()).map_err(|e| e.to_string())?, &mut rec),
         }
     }
